@@ -134,7 +134,7 @@ let run_case (c : case) : string =
   | "avg" ->
     let ts = List.map (fun s -> xform_of13 (qlist s)) (split_on ';' (get c "ts")) in
     "M=" ^ groups [out (l_vec (qc_avg_trans ts)); out [qc_avg_scale ts]]
-  | "rotvec" | "median" | "medf" | "bsphere" | "bounds" -> "M=-"   (* implementation-only checks *)
+  | "rotvec" | "median" | "medf" | "bsphere" | "bounds" | "bounds2" -> "M=-"   (* implementation-only checks *)
   | _ -> "M=?"
 
 let main () =
